@@ -116,4 +116,5 @@ def gen_c02(rng, driver):
     else:
         sc.paths = spelled + [dsp]
     sc.meta = dict(srcs=srcs, dest=dest, destk=destk, single_file=single_file)
+    sc.extra = rng.choice([[], [], [], ['--no-progress'], ['--no-progress'], ['--fsync'], ['--no-perms'], ['--no-timestamps'], ['--reflink=never'], ['--no-progress', '--fsync'], ['-v']])      # options that must not change the shape of the result
     return sc
